@@ -284,6 +284,9 @@ def calls (k : Nat) (x : Ind) : List (Nat × Ind) := (List.range k).map (fun i =
 /-- the complete invocation log for a list of indications and `n` callbacks -/
 def expand (n : Nat) (xs : List Ind) : List (Nat × Ind) := xs.flatMap (calls n)
 
+/-- the indications handed to callback `k`, in the order of the calls -/
+def seenBy (k : Nat) (log : List (Nat × Ind)) : List Ind := (log.filter (fun e => e.1 == k)).map (·.2)
+
 /-- the part of the log that belongs to the indication in flight -/
 def partialLog (c : Cfg) (s : Sys) : List (Nat × Ind) :=
   match s.cb with
